@@ -266,6 +266,33 @@ for _c in CHECKS:
     if _c["id"] in EXTRA5:
         _c["text"] = _c["text"] + " " + EXTRA5[_c["id"]]
 
+# families added after the ninth wave (DESIGN 10.20)
+EXTRA6 = {
+    "C01": "Runs of blanks / tabs / word characters after an at-sign up to 10^4 (time stays linear: watchdog).",
+    "C02": "The whole catalogue once under python -O and -OO in a child interpreter.",
+    "C03": "Free text of up to 40000 characters followed by runs of white space.",
+    "C04": "Complete failed entries in the middle that hold the suffixes' keys.",
+    "C05": "Free text that reads like the writer's own warning line.",
+    "C06": "A user middleware in the stack that changes the field keys (layout computed after the stack).",
+    "C07": "The alias walker looks through error objects; a duplicate wrapper whose first holder has left the library; the caller edits every list and dict of earlier results.",
+    "C08": "An Entry subclass with a length (falsy without fields); twins differing in parser metadata only.",
+    "C09": "A copy-mode resolver as parse stack; duplicates that refer to strings.",
+    "C10": "An empty record of removed enclosings; a field key held twice.",
+    "C11": "A string named like a month macro referenced from a month field.",
+    "C12": "The separator rule wherever the brace depth is defined (groups may stay open); nesting 1500 / 5000 deep.",
+    "C13": "A name field key held twice.",
+    "C14": "Name values written bare in the source.",
+    "C16": "Orders naming a type twice; int keys among entries.",
+    "C17": "Field objects shared between entries / held twice.",
+    "C18": "Upper-case URL look-alikes; two entries in flight on one instance (a converter that re-enters the middleware).",
+    "C19": "A Field subclass under == and !=; a Field object assigned as a value.",
+    "C20": "A latin-1 file that starts like a byte-order mark; target files that already hold the text with other line ends.",
+}
+for _c in CHECKS:
+    if _c["id"] in EXTRA6:
+        _c["text"] = _c["text"] + " " + EXTRA6[_c["id"]]
+    _c["text"] = _c["text"] + " The library's DEBUG logging is on (records formatted and dropped) in every fourth shard of the quick tier and in all shards of the thorough tier, disabled in the others."
+
 CHECKS.sort(key=lambda c: c["id"])
 
 _claimed = {c["id"] for c in CHECKS}
